@@ -43,7 +43,7 @@ CONSTANTS
                   \* id is free again only after its response was consumed)
   Mode,           \* "mc" | "script" | "race"
   SymBreak,       \* generation: callers are interchangeable, so caller n+1 starts only after caller n did
-  \* the code as it is (open finding):
+  \* repaired (fixes/C19-gate-wait-honours-timeout-and-context): FALSE in every conformance configuration
   Dev_GateIgnoresDeadline, \* a call waiting at the renewal gate honours neither timeout nor context
   \* repaired in /repo (a6d06b1, 49b62b1): FALSE in every conformance configuration, kept as demos
   Dev_OpnTimeoutWedge,     \* dispatcher locks the receive gate in a separate step after popHandler
@@ -97,6 +97,7 @@ Init ==
 \* which steps are "internal and eager" in the generation modes
 CallerEager(p) == \/ pc[p] \in {"id", "reg"}
                   \/ (pc[p] = "gate" /\ ~reqGate)
+                  \/ (pc[p] = "gate" /\ reqGate /\ ctxd[p] /\ ~Dev_GateIgnoresDeadline)
                   \/ (pc[p] = "wait" /\ box[p] # NoMsg)
 DispEager      == \/ (dpc = "recv" /\ dRead < Len(s2c))
                   \/ dpc = "pop"
@@ -158,6 +159,23 @@ GateDeadline(p) ==                 \* contract: the wait at the gate is bounded 
   /\ ~Dev_GateIgnoresDeadline /\ Timed
   /\ pc[p] = "gate" /\ reqGate /\ now >= t0[p] + T
   /\ Finish(p, "timeout", NoMsg)
+  /\ UNCHANGED <<nextId, handlers, cid, t0, dl, sent, c2s, srvRead, answered, s2c, dRead,
+                 dpc, dmsg, dch, extra, now, hist>>
+
+GateTimeout(p) ==                  \* untimed modes: the call's timeout elapses while it waits at the gate
+  /\ UNCHANGED <<chunks, chanErr>>
+  /\ ~Dev_GateIgnoresDeadline /\ ~Timed /\ ~NoTimeouts /\ p \in Callers
+  /\ pc[p] = "gate" /\ reqGate /\ ~ctxd[p] /\ EnvOK
+  /\ Finish(p, "timeout", NoMsg)
+  /\ Rec([a |-> "gatetimeout", c |-> p])
+  /\ UNCHANGED <<nextId, handlers, cid, t0, dl, sent, c2s, srvRead, answered, s2c, dRead,
+                 dpc, dmsg, dch, extra, now>>
+
+GateCancel(p) ==                   \* the caller's context has ended: the wait at the gate is given up
+  /\ UNCHANGED <<chunks, chanErr>>
+  /\ ~Dev_GateIgnoresDeadline
+  /\ pc[p] = "gate" /\ reqGate /\ ctxd[p]
+  /\ Finish(p, "ctx", NoMsg)
   /\ UNCHANGED <<nextId, handlers, cid, t0, dl, sent, c2s, srvRead, answered, s2c, dRead,
                  dpc, dmsg, dch, extra, now, hist>>
 
@@ -392,7 +410,7 @@ Tick ==
 
 ---------------------------------------------------------------------------
 Next ==
-  \/ \E p \in Procs : \/ Invoke(p) \/ PassGate(p) \/ GateDeadline(p) \/ AllocId(p) \/ Register(p)
+  \/ \E p \in Procs : \/ Invoke(p) \/ PassGate(p) \/ GateDeadline(p) \/ GateTimeout(p) \/ GateCancel(p) \/ AllocId(p) \/ Register(p)
                       \/ TakeMsg(p) \/ TimerArm(p) \/ Cancel(p) \/ InvokeCancelled(p) \/ ErrPop(p)
   \/ DRecv \/ DRecvPart \/ DPop \/ DLock \/ DHandoff \/ DGateEnter \/ DGatePass
   \/ SrvRead \/ RespondOpn
@@ -403,7 +421,7 @@ Next ==
 Fair == /\ WF_vars(SrvRead) /\ WF_vars(DRecv) /\ WF_vars(DRecvPart) /\ WF_vars(DPop) /\ WF_vars(DLock) /\ WF_vars(DHandoff)
         /\ WF_vars(DGateEnter) /\ WF_vars(DGatePass)
         /\ \A p \in Procs : WF_vars(PassGate(p) \/ AllocId(p) \/ Register(p) \/ TakeMsg(p)
-                                    \/ TimerArm(p) \/ ErrPop(p) \/ GateDeadline(p))
+                                    \/ TimerArm(p) \/ ErrPop(p) \/ GateDeadline(p) \/ GateCancel(p))
         /\ WF_vars(Tick)
 Spec == Init /\ [][Next]_vars /\ Fair
 
